@@ -21,7 +21,75 @@ EXPLANATION = (
 NOT_DECIDED = ("that libsodium accepts dryoc's strings and vice versa (byte-level base64/format interop), "
                "re-encoding equality for every valid string.")
 
-PARSED = ["pwhash", "salt", "type_", "t_cost", "m_cost", "parallelism", "version"]
+from ..inline import inline
+
+# Roles of the (crate-private) fields of the parse record and of PwHash/Config are discovered from
+# things that cannot change without changing behaviour or the public API, never from field names:
+#   parse record: the field stored from the segment stripped of "m=" / "t=" / "p=" / "v=", the field of
+#   algorithm type, and the two byte-vector fields (salt = the one that must already be Some when the
+#   other is filled);  PwHash: the positional public constructor from_parts(hash, salt, config);
+#   Config: the operands of the public crypto_pwhash(.., opslimit, memlimit, algorithm) call.
+PREFIX_ROLE = {'"m="': "m", '"t="': "t", '"p="': "p", '"v="': "v"}
+
+
+def parse_roles(prog, parv):
+    adt = None
+    okty = parv.locals[0].get("t", "")
+    for a in prog.adts.values():
+        if a["path"] in okty and len(a["variants"]) == 1 and a["path"].startswith("classic::crypto_pwhash::"):
+            adt = a
+    if adt is None:
+        return None, "parse record type not found in %s" % okty
+    fields = adt["variants"][0]["fields"]
+    roles = {}
+    for fd in fields:
+        if "PasswordHashAlgorithm" in fd["ty"]["t"]:
+            roles["alg"] = fd["name"]
+    vecs = [fd["name"] for fd in fields if "Vec<u8>" in fd["ty"]["t"]]
+    stores = {}
+    for b, i, st in parv.assigns():
+        fl = [pe for pe in st["place"]["p"] if isinstance(pe, dict) and "f" in pe]
+        if len(fl) != 1 or adt["path"] not in parv.locals[st["place"]["l"]]["t"]:
+            continue
+        stores.setdefault(fl[0]["n"], []).append((b, st))
+        e = expr_of_operand(parv, st["rv"]["x"]) if st["rv"]["k"] == "use" else (E("agg", None, None, [expr_of_operand(parv, o) for o in st["rv"].get("ops", [])]) if st["rv"]["k"] == "agg" else None)
+        for c in atoms_of(e) if e is not None else ():
+            if c.name == "strip_prefix" and len(c.args) == 2:
+                lit = call_arg_exprs(c)[1]
+                r_ = PREFIX_ROLE.get(lit.c if lit.k == "const" else None)
+                if r_:
+                    roles.setdefault(r_, fl[0]["n"])
+    if len(vecs) == 2:
+        se = some_edges(parv)
+        for a_, b_ in ((vecs[0], vecs[1]), (vecs[1], vecs[0])):
+            # b_ is only ever filled where a_ is already known to be Some
+            if stores.get(b_) and all(any(fld == a_ and parv.edge_dominates(edge, sb) for edge, fld in se.items()) for sb, _ in stores[b_]):
+                roles["salt"], roles["hash"] = a_, b_
+    missing = [r for r in ("hash", "salt", "alg", "t", "m", "p", "v") if r not in roles]
+    if missing or len(set(roles.values())) != 7:
+        return None, "cannot establish the roles %s of the parse record fields (found %s)" % (missing, roles)
+    return roles, ""
+
+
+def object_roles(prog):
+    """{'hash','salt','config'} -> PwHash field names; {'opslimit','memlimit','algorithm'} -> Config field names"""
+    out = {}
+    for f in cm.find_method(prog, "pwhash::PwHash", "from_parts"):
+        for b, i, st in f.assigns():
+            if st["rv"]["k"] == "agg" and st["rv"].get("agg") == "adt" and st["rv"].get("path", "").endswith("pwhash::PwHash"):
+                for nm, o in zip(st["rv"]["fields"], st["rv"]["ops"]):
+                    ls = list(operand_locals(o))
+                    r0 = cm.view_info(f, ls[0])[0] if ls else None
+                    if r0 in (1, 2, 3):
+                        out[("hash", "salt", "config")[r0 - 1]] = nm
+    for f in cm.find_method(prog, "pwhash::PwHash", "hash_with_salt"):
+        for c in f.calls():
+            if c.rpath == "classic::crypto_pwhash::crypto_pwhash" and len(c.args) == 6:
+                for i, role in ((3, "opslimit"), (4, "memlimit"), (5, "algorithm")):
+                    pf = peeled_field(call_arg_exprs(c)[i])
+                    if pf:
+                        out[role] = pf[0]
+    return out
 
 
 def str_consts(fns):
@@ -65,16 +133,22 @@ def run(ctx, rep):
         rep.violation("ANCHOR", "encoder/parser", "pwhash_to_string / parse_encoded_pwhash not found (base64 feature)")
         return
     enc, par = enc[0], par[0]
-    encoder(rep, prog, enc, par)
-    parser(rep, prog, par)
-    verify(rep, prog, par)
-    rehash(rep, prog, par)
+    parv = inline(prog, par)      # validation helpers of the parser folded in
+    roles, why = parse_roles(prog, parv)
+    if roles is None:
+        rep.violation("ANCHOR", "parse record roles", why, loc=par.loc())
+        return
+    rep.note("parse record roles: %s" % roles)
+    encoder(rep, prog, enc, par, roles)
+    parser(rep, prog, parv, roles)
+    verify(rep, prog, par, roles)
+    rehash(rep, prog, par, roles)
 
 
 ALGO = re.compile(r'^"(argon2\w*)"$')
 
 
-def encoder(rep, prog, enc, par):
+def encoder(rep, prog, enc, par, roles):
     e_alg = {m.group(1) for s in str_consts(prog.unit(enc)) for m in [ALGO.match(s)] if m}
     # format-string template may carry the literal too
     for s in str_consts(prog.unit(enc)):
@@ -105,11 +179,10 @@ def encoder(rep, prog, enc, par):
     for p in cm.params_of(enc):
         rep.ob("ENCODER", "pwhash_to_string uses `%s`" % cm.param_name(enc, p), p in back,
                "parameter `%s` %s the formatted string" % (cm.param_name(enc, p), "flows into" if p in back else "does NOT flow into"), loc=enc.loc())
-    names = {cm.param_name(enc, p) for p in cm.params_of(enc)}
-    rep.ob("ENCODER", "encoder takes the algorithm", any("alg" in n or "type" in n for n in names),
-           "encoder parameters: %s" % sorted(names), loc=enc.loc())
+    algp = [p for p in cm.params_of(enc) if "PasswordHashAlgorithm" in enc.locals[p]["t"]]
+    rep.ob("ENCODER", "encoder takes the algorithm", len(algp) == 1,
+           "encoder parameter types: %s" % [enc.locals[p]["t"] for p in cm.params_of(enc)], loc=enc.loc())
     # the algorithm-dependent literal is selected by a branch on the algorithm parameter
-    algp = [p for p in cm.params_of(enc) if "alg" in cm.param_name(enc, p) or "type" in cm.param_name(enc, p)]
     if algp:
         sw = [b for b in range(enc.n) if enc.blocks[b]["t"]["k"] == "switch" and
               algp[0] in enc.backward_slice(operand_locals(enc.blocks[b]["t"]["x"]))]
@@ -120,18 +193,29 @@ def encoder(rep, prog, enc, par):
         if not calls:
             rep.violation("ENCODER", "PwHash::to_string reaches the encoder", "no call to the encoder", loc=ts.loc())
             continue
-        txt = " ".join(deep_repr(a) for a in call_arg_exprs(calls[0]))
-        self_fields = set(re.findall(r"_1(?:\.\w+)*\.(\w+)", txt))
-        for fld in ("algorithm", "opslimit", "memlimit", "salt", "hash"):
-            rep.ob("ENCODER", "PwHash::to_string passes %s" % fld, fld in self_fields,
-                   "encoder operands built from self fields %s: %s" % (sorted(self_fields), txt[:200]), loc=calls[0].loc())
+        orole = object_roles(prog)
+        ax = [deep_repr(a) for a in call_arg_exprs(calls[0])]
+        # encoder(algorithm, t_cost, m_cost, salt, hash): positional
+        want_ops = {0: ("algorithm", [orole.get("config"), orole.get("algorithm")]),
+                    1: ("opslimit", [orole.get("config"), orole.get("opslimit")]),
+                    2: ("memlimit", [orole.get("config"), orole.get("memlimit")]),
+                    3: ("salt", [orole.get("salt")]), 4: ("hash", [orole.get("hash")])}
+        for i, (role, path) in want_ops.items():
+            ok = i < len(ax) and None not in path and ("_1." + ".".join(path)) in ax[i] and \
+                not any(("_1." + ".".join(p2)) in ax[i] for j, (r2, p2) in want_ops.items() if j != i and None not in p2 and (i >= 3 or j >= 3 or r2 != role) and p2 != path and not (i in (1, 2) and j in (1, 2)))
+            if i in (1, 2) and ok:
+                # t comes from .0 of convert(opslimit, memlimit), m from .1
+                po, pm = ax[i].find("_1." + ".".join(want_ops[1][1])), ax[i].find("_1." + ".".join(want_ops[2][1]))
+                ok = ax[i].endswith(".%d" % (i - 1)) and 0 <= po < pm
+            rep.ob("ENCODER", "PwHash::to_string passes %s" % role, ok,
+                   "encoder operand %d is %s (object field roles %s)" % (i, ax[i][:120] if i < len(ax) else "?", orole), loc=calls[0].loc())
     # from_string fills the same fields from parsed content
     for fs in cm.find_method(prog, "pwhash::PwHash", "from_string"):
-        txt = deep_repr(expr_of_local(fs, 0))
         allx = " ".join(deep_repr(expr_of_operand(fs, a)) for c in fs.calls() for a in c.args) + " ".join(
-            deep_repr(expr_of_operand(fs, o)) for b, i, s in fs.assigns() for o in ([s["rv"].get("x")] if s["rv"].get("x") else s["rv"].get("ops", [])) if o)
-        for fld in ("type_", "t_cost", "m_cost", "salt", "pwhash"):
-            rep.ob("ENCODER", "PwHash::from_string reads parsed %s" % fld, ("." + fld) in allx, "parsed field `%s` is consumed" % fld, loc=fs.loc())
+            deep_repr(expr_of_operand(fs, o)) for b, i, s_ in fs.assigns() for o in ([s_["rv"].get("x")] if s_["rv"].get("x") else s_["rv"].get("ops", [])) if o)
+        for role in ("alg", "t", "m", "salt", "hash"):
+            fld = roles[role]
+            rep.ob("ENCODER", "PwHash::from_string reads parsed %s" % role, ("." + fld) in allx, "parsed field `%s` is consumed" % fld, loc=fs.loc())
     # crypto_pwhash_str passes the algorithm it hashed with
     for f in prog.by_path.get("classic::crypto_pwhash::crypto_pwhash_str", []):
         a2 = [c for c in f.calls() if c.rpath.endswith("argon2::argon2_hash")]
@@ -169,24 +253,39 @@ def some_edges(f):
     return out
 
 
-def parser(rep, prog, par):
+def parser(rep, prog, par, roles):
+    from .c04 import option_eq_some
     se = some_edges(par)
     ef = edge_facts(par, cm.view_info)
+    # `field == Some(c)` through Option's PartialEq: field is Some and equals c on the equal edge
+    eqs = {}
+    for b_ in range(par.n):
+        t_ = par.blocks[b_]["t"]
+        if t_["k"] != "switch":
+            continue
+        oe = option_eq_some(expr_of_operand(par, t_["x"]))
+        arms_ = {v: tb for v, tb in t_["arms"]}
+        if oe is not None and 0 in arms_:
+            edge = (b_, arms_[0] if oe[2] else t_["otherwise"])
+            se[edge] = oe[0]
+            if oe[1] is not None:
+                eqs[edge] = (oe[0], oe[1])
     nok = 0
     for b, kind, e in result_kind_of_ret(par):
         if kind != "ok" or b not in par.reachable(0):
             continue
         nok += 1
         known = {fld for edge, fld in se.items() if par.edge_dominates(edge, b)}
-        for fld in PARSED:
-            rep.ob("PARSER", "Ok ⇒ %s is Some" % fld, fld in known,
+        for role, fld in sorted(roles.items()):
+            rep.ob("PARSER", "Ok ⇒ %s is Some" % role, fld in known,
                    "Ok exit at %s is %sdominated by the is-Some edge of `%s`" % (par.loc(b), "" if fld in known else "NOT ", fld), loc=par.loc(b))
         facts = facts_at(par, b, ef)
-        txt = [(op, deep_or(l), deep_or(r)) for op, l, r in facts]
-        v19 = any(op == "Eq" and "version" in str(l) + str(r) and (l == 19 or r == 19) for op, l, r in facts)
-        p1 = any(op == "Eq" and "parallelism" in str(l) + str(r) and (l == 1 or r == 1) for op, l, r in facts)
-        rep.ob("PARSER", "Ok ⇒ version == 19", v19, "facts at the Ok exit: %s" % [t for t in txt if "version" in str(t)], loc=par.loc(b))
-        rep.ob("PARSER", "Ok ⇒ parallelism == 1", p1, "facts at the Ok exit: %s" % [t for t in txt if "parallelism" in str(t)], loc=par.loc(b))
+        eqk = {(fld, val) for edge, (fld, val) in eqs.items() if par.edge_dominates(edge, b)}
+        fv, fp = "." + roles["v"], "." + roles["p"]
+        v19 = any(op == "Eq" and (str(l) + str(r)).count(fv + ")") and (l == 19 or r == 19) for op, l, r in facts) or (roles["v"], 19) in eqk
+        p1 = any(op == "Eq" and (str(l) + str(r)).count(fp + ")") and (l == 1 or r == 1) for op, l, r in facts) or (roles["p"], 1) in eqk
+        rep.ob("PARSER", "Ok ⇒ version == 19", v19, "facts at the Ok exit: %s %s" % ([t for t in facts if fv in str(t)], sorted(eqk)), loc=par.loc(b))
+        rep.ob("PARSER", "Ok ⇒ parallelism == 1", p1, "facts at the Ok exit: %s %s" % ([t for t in facts if fp in str(t)], sorted(eqk)), loc=par.loc(b))
     rep.floor("Ok exits of the parser", nok, 1)
 
 
@@ -222,7 +321,7 @@ def rooted_at(e, local):
     return e is not None and e.k == "local" and e.a == local
 
 
-def verify(rep, prog, par):
+def verify(rep, prog, par, roles):
     fs = prog.by_path.get("classic::crypto_pwhash::crypto_pwhash_str_verify", [])
     if not fs:
         rep.violation("ANCHOR", "crypto_pwhash_str_verify", "not found")
@@ -241,7 +340,7 @@ def verify(rep, prog, par):
         for c in cm.ct_eq_calls(g):
             roots = [cm.view_info(g, l)[0] for a in c.args for l in operand_locals(a)]
             txt = " ".join(deep_repr(x) for x in call_arg_exprs(c))
-            if outroot in roots and ".pwhash" in txt:
+            if outroot in roots and ("." + roles["hash"]) in txt:
                 out.append(c)
         return out
     auth, results = auth_fixpoint(prog, [f], prims)
@@ -249,7 +348,7 @@ def verify(rep, prog, par):
     rep.ob("VERIFY", "crypto_pwhash_str_verify authenticated", f.key in auth,
            "Ok only behind ct_eq(recomputed, parsed hash)" if f.key in auth else "an Ok return bypasses the hash comparison: %s" % [f.loc(b) for b, p in r.bad_exits], loc=f.loc())
     ax = call_arg_exprs(a2[0])
-    want = {0: "t_cost", 1: "m_cost", 2: "parallelism", 4: "salt", 8: "type_"}
+    want = {0: roles["t"], 1: roles["m"], 2: roles["p"], 4: roles["salt"], 8: roles["alg"]}
     pc0 = [c for c in f.calls() if par in prog.callee_fns(c)]
     for i, fld in want.items():
         t = deep_repr(ax[i])
@@ -257,64 +356,151 @@ def verify(rep, prog, par):
         ok = pf is not None and pf[0] == fld
         rep.ob("VERIFY", "Argon2 operand %d is the parsed %s" % (i, fld), ok,
                "operand: %s (must be the parsed field itself, through value-preserving adapters only)" % t[:120], loc=a2[0].loc())
-    pw = f.arg_local("password")
+    pws = [p for p in cm.params_of(f) if f.locals[p]["t"] in ("&[u8]", "&'_ [u8]")]
+    pw = pws[0] if len(pws) == 1 else None
     rep.ob("VERIFY", "password operand", cm.view_info(f, list(operand_locals(a2[0].args[3]))[0])[0] == pw, "Argon2 password operand is the password parameter", loc=a2[0].loc())
     pc = [c for c in f.calls() if par in prog.callee_fns(c)]
     rep.ob("VERIFY", "parses the supplied string", bool(pc) and cm.view_info(f, list(operand_locals(pc[0].args[0]))[0])[0] == 1, "parser receives hashed_password", loc=f.loc())
 
 
-def rehash(rep, prog, par):
+def rehash(rep, prog, par, roles):
     fs = prog.by_path.get("classic::crypto_pwhash::crypto_pwhash_str_needs_rehash", [])
     if not fs:
         rep.violation("ANCHOR", "crypto_pwhash_str_needs_rehash", "not found")
         return
-    f = fs[0]
-    # comparisons of convert_costs outputs with parsed costs
-    cmp_edges = {"t_cost": {"eq": [], "ne": []}, "m_cost": {"eq": [], "ne": []}}
+    f0 = fs[0]
+    conv0 = {c.rkey for c in f0.calls() if c.is_local and len(c.args) == 2 and
+             [cm.view_info(f0, list(operand_locals(a))[0])[0] if operand_locals(a) else None for a in c.args] == [2, 3]}
+    f = inline(prog, f0, keep=(lambda g: g.key == par.key or g.key in conv0,))
+    # (t, m) = convert(opslimit, memlimit): the crate-local call fed by parameters 2 and 3 in that order
     conv = [c for c in f.calls() if c.is_local and len(c.args) == 2 and
             [cm.view_info(f, list(operand_locals(a))[0])[0] if operand_locals(a) else None for a in c.args] == [2, 3]]
-    cname = conv[0].rpath.split("::")[-1] if conv else "convert_costs"
+    rep.ob("REHASH", "convert_costs(opslimit, memlimit)", len(conv) == 1,
+           "%d crate-local call(s) taking (opslimit, memlimit) in that order" % len(conv), loc=f.loc())
+    if len(conv) != 1:
+        return
+    cv = conv[0]
+
+    def side(e):
+        pf = peeled_field(e)
+        if pf is not None and pf[0] in (roles["t"], roles["m"]) and any(par in prog.callee_fns(c) for c in atoms_of(pf[1])):
+            return ("parsed", "t" if pf[0] == roles["t"] else "m")
+        x = e
+        while x is not None and x.k == "cast":
+            x = x.a
+        if x is not None and x.k == "field" and x.a.k == "call" and x.a.a.bb == cv.bb and x.a.a.fn is f and x.b in ("0", "1"):
+            return ("conv", "t" if x.b == "0" else "m")
+        return None
+    atoms = {}      # (bb, stmt index) -> (role, op)
     for b in range(f.n):
-        t = f.blocks[b]["t"]
-        if t["k"] != "switch":
+        for i, st in enumerate(f.blocks[b]["s"]):
+            if st["k"] != "assign" or st["rv"]["k"] != "binop" or st["rv"]["op"] not in ("Eq", "Ne"):
+                continue
+            l, r = side(expr_of_operand(f, st["rv"]["l"])), side(expr_of_operand(f, st["rv"]["r"]))
+            if l is None or r is None or {l[0], r[0]} != {"parsed", "conv"}:
+                continue
+            rep.ob("REHASH", "compares parsed %s with the matching convert_costs output" % l[1], l[1] == r[1],
+                   "comparison at %s relates %s and %s" % (f.loc(b), l, r), loc=f.loc(b))
+            if l[1] == r[1]:
+                atoms[(b, i)] = (l[1], st["rv"]["op"])
+    for role in ("t", "m"):
+        n_ = sum(1 for v in atoms.values() if v[0] == role)
+        rep.ob("REHASH", "compares %s_cost with convert_costs output" % role, n_ >= 1,
+               "%d comparison(s) between the parsed %s_cost and convert_costs(opslimit, memlimit)" % (n_, role), loc=f.loc())
+    if not all(any(v[0] == r_ for v in atoms.values()) for r_ in ("t", "m")):
+        return
+    # path-sensitive evaluation of the returned flag with the two equalities fixed (all four cases):
+    # Ok(x) must carry x == !(t_equal && m_equal)
+    for teq in (True, False):
+        for meq in (True, False):
+            forced = {k: ((teq if v[0] == "t" else meq) if v[1] == "Eq" else not (teq if v[0] == "t" else meq)) for k, v in atoms.items()}
+            rets = bool_paths(f, forced)
+            oks = [r for r in rets if isinstance(r, tuple) and r[0] == "ok"]
+            unk = [r for r in rets if r is None or (isinstance(r, tuple) and r[0] == "ok" and not isinstance(r[1], bool))]
+            want = not (teq and meq)
+            good = bool(oks) and not unk and all(r[1] == want for r in oks)
+            rep.ob("REHASH", "t %s, m %s ⇒ Ok(%s)" % ("equal" if teq else "differs", "equal" if meq else "differs", str(want).lower()), good,
+                   "returns on the paths consistent with this case: %s" % sorted({repr(r) for r in rets}), loc=f.loc())
+
+
+def bool_paths(f, forced, cap=20000):
+    """Forward, path-sensitive evaluation of boolean/integer locals with the listed comparison
+    statements fixed: follows only the switch arms consistent with the values known so far and returns
+    the set of values `_0` can hold at a return: ('ok', payload) / ('err',) / None (unknown)."""
+    UNK = None
+    out = set()
+    seen = set()
+    work = [(0, ())]
+    ops = {"Eq": lambda a, b: a == b, "Ne": lambda a, b: a != b, "BitAnd": lambda a, b: a & b, "BitOr": lambda a, b: a | b,
+           "BitXor": lambda a, b: a ^ b, "Lt": lambda a, b: a < b, "Le": lambda a, b: a <= b, "Gt": lambda a, b: a > b, "Ge": lambda a, b: a >= b}
+
+    def val(env, o):
+        if o.get("k") == "const":
+            v = o.get("v")
+            if v is not None and o.get("ty") == "bool":
+                return bool(v)
+            return v
+        if o.get("k") in ("copy", "move") and not o["p"]:
+            return env.get(o["l"], UNK)
+        return UNK
+    while work and len(seen) < cap:
+        b, envt = work.pop()
+        if (b, envt) in seen:
             continue
-        e = expr_of_operand(f, t["x"])
-        if e.k != "binop" or e.a not in ("Eq", "Ne"):
-            continue
-        txt = deep_repr(e)
-        arms = {v: tb for v, tb in t["arms"]}
-        if 0 not in arms:
-            continue
-        for fld in ("t_cost", "m_cost"):
-            if ("." + fld) in txt and (cname + "(") in txt:
-                tt, ft = t["otherwise"], arms[0]
-                if e.a == "Eq":
-                    cmp_edges[fld]["eq"].append((b, tt))
-                    cmp_edges[fld]["ne"].append((b, ft))
-                else:
-                    cmp_edges[fld]["ne"].append((b, tt))
-                    cmp_edges[fld]["eq"].append((b, ft))
-    for fld in ("t_cost", "m_cost"):
-        rep.ob("REHASH", "compares %s with convert_costs output" % fld, len(cmp_edges[fld]["eq"]) == 1,
-               "%d comparison(s) between the parsed %s and convert_costs(opslimit, memlimit)" % (len(cmp_edges[fld]["eq"]), fld), loc=f.loc())
-    if conv:
-        rep.ob("REHASH", "convert_costs(opslimit, memlimit)", [cm.view_info(f, list(operand_locals(a))[0])[0] for a in conv[0].args] == [2, 3],
-               "argument order", loc=conv[0].loc())
-    all_ne = cmp_edges["t_cost"]["ne"] + cmp_edges["m_cost"]["ne"]
-    for b, kind, e in result_kind_of_ret(f):
-        if kind != "ok" or b not in f.reachable(0):
-            continue
-        # payload of Ok(..)
-        payload = None
-        for bb, i, s in f.assigns():
-            if bb == b and s["place"]["l"] == 0 and s["rv"]["k"] == "agg":
-                payload = evaluate(expr_of_operand(f, s["rv"]["ops"][0]), {})
-        if payload is False or payload == 0:
-            ok = all(any(f.edge_dominates(ed, b) for ed in cmp_edges[fld]["eq"]) for fld in ("t_cost", "m_cost"))
-            rep.ob("REHASH", "Ok(false) only when both costs match", ok, "Ok(false) at %s is dominated by both equal edges: %s" % (f.loc(b), ok), loc=f.loc(b))
-        elif payload is True or payload == 1:
-            reach = f.reachable(0, cut_edges=all_ne)
-            rep.ob("REHASH", "Ok(true) only when a cost differs", b not in reach and bool(all_ne),
-                   "Ok(true) at %s is unreachable without a not-equal edge" % f.loc(b), loc=f.loc(b))
-        else:
-            rep.violation("REHASH", "Ok payload is a constant", "Ok payload at %s is computed (%r); expected constant true/false" % (f.loc(b), payload), loc=f.loc(b))
+        seen.add((b, envt))
+        env = dict(envt)
+        blk = f.blocks[b]
+        for i, st in enumerate(blk["s"]):
+            if st["k"] != "assign":
+                continue
+            pl = st["place"]
+            if pl["p"]:
+                env.pop(pl["l"], None)
+                continue
+            rv = st["rv"]
+            v = UNK
+            if (b, i) in forced:
+                v = forced[(b, i)]
+            elif rv["k"] == "use":
+                v = val(env, rv["x"])
+            elif rv["k"] == "unop" and rv["op"] == "Not":
+                x = val(env, rv["x"])
+                v = (not x) if isinstance(x, bool) else UNK
+            elif rv["k"] == "binop" and rv["op"] in ops:
+                x, y = val(env, rv["l"]), val(env, rv["r"])
+                if x is not UNK and y is not UNK and not isinstance(x, tuple) and not isinstance(y, tuple):
+                    v = ops[rv["op"]](x, y)
+            elif rv["k"] == "agg" and rv.get("path") == "std::result::Result":
+                v = ("ok", val(env, rv["ops"][0]) if rv["ops"] else UNK) if rv["variant"] == "Ok" else ("err",)
+            if v is UNK:
+                env.pop(pl["l"], None)
+            else:
+                env[pl["l"]] = v
+        t = blk["t"]
+        k = t["k"]
+        nxt = []
+        if k == "return":
+            out.add(env.get(0, UNK))
+        elif k == "goto":
+            nxt = [t["t"]]
+        elif k == "switch":
+            x = val(env, t["x"])
+            if isinstance(x, bool):
+                x = int(x)
+            if isinstance(x, int):
+                m = [tb for v_, tb in t["arms"] if v_ == x]
+                nxt = [m[0]] if m else [t["otherwise"]]
+            else:
+                nxt = [tb for _, tb in t["arms"]] + [t["otherwise"]]
+        elif k == "call":
+            env.pop(t["dest"]["l"], None)
+            if t["f"].get("path") == "std::ops::FromResidual::from_residual" and not t["dest"]["p"]:
+                env[t["dest"]["l"]] = ("err",)
+            if t.get("t") is not None:
+                nxt = [t["t"]]
+        elif k in ("drop", "assert"):
+            nxt = [t["t"]]
+        frozen = tuple(sorted(env.items(), key=lambda kv: kv[0]))
+        for n_ in nxt:
+            work.append((n_, frozen))
+    return out
